@@ -604,6 +604,14 @@ class Frame:
             return self.I.stdlib.unary(self.I, '-', v, n)
         if isinstance(n.op, ast.UAdd):
             return v
+        if isinstance(n.op, ast.Invert):
+            from .npmodel import SArray as _SA
+            if isinstance(v, _SA) and v.dtype == 'bool':
+                return _SA(v.shape, lambda idx, v=v: mk_bool(z3.Not(zbool(v.fn(idx)))), 'bool')
+            if isinstance(v, bool):
+                return -2 if v else -1
+            if isinstance(v, int):
+                return ~v
         raise Unsupported('unary op', n)
 
     def binop(self, op, a, b, node=None):
